@@ -403,13 +403,11 @@ def alphabets_for(prog, cap=4096, max_len=10):
         return t
     k = len(alph) - 1
     while total(alph) > cap and k >= 1:
-        if len(alph[k]) > 2:
-            alph[k] = alph[k][:2] if k not in hot else [alph[k][0], alph[k][4], alph[k][-1]][:max(2, len(alph[k]) // 3)]
-        elif len(alph[k]) > 1:
-            alph[k] = alph[k][1:2] if k not in hot else alph[k][:1]
-        else:
-            k -= 1
-            continue
+        a = alph[k]
+        if len(a) > 2:
+            alph[k] = [a[0]] + a[2:-1:2] + [a[-1]] if len(a) > 3 else [a[0], a[-1]]
+        elif len(a) == 2:
+            alph[k] = a[1:] if k not in hot else a[:1]
         if len(alph[k]) <= 1:
             k -= 1
     # if still above the cap shorten the maximum length
